@@ -26,7 +26,7 @@ StatusTable == {0, 1, 2, 3, 4, 5, 6, 32, 33, 129, 130, 131, 132, 133, 134}
 
 VARIABLES l, sm, viol, cov
 vars == <<l, sm, viol, cov>>
-NoStream == [id |-> 0, limit |-> 0, frames |-> <<>>, first |-> <<>>, dead |-> FALSE]
+NoStream == [id |-> 0, limit |-> 0, frames |-> <<>>, first |-> <<>>, dead |-> FALSE, cut |-> 0, expect |-> <<>>]
 Init == l = 1 /\ sm = NoStream /\ viol = <<>> /\ cov = <<>>
 
 Count(c, rule) == IF \E i \in 1..Len(c) : c[i][1] = rule
@@ -41,12 +41,20 @@ Answers(r, f) == r.opq = f.opq /\ r.op = f.op
 
 Res(tags, rule) == [tags |-> tags, rule |-> rule]
 
-(* walk frame fi against response ri; `how` says how the reading ended *)
-RECURSIVE Walk(_, _, _, _, _)
-Walk(fr, rs, fi, ri, how) ==
+RECURSIVE StartOf(_, _)
+StartOf(fr, i) == IF i = 1 THEN 0 ELSE StartOf(fr, i - 1) + HeaderLen + fr[i - 1].sent
+
+(* walk frame fi against response ri; `how` says how the reading ended; the client sent only *)
+(* the first `cut` bytes (the whole stream plus a sentinel noop when cut = total length)      *)
+RECURSIVE Walk(_, _, _, _, _, _)
+Walk(fr, rs, fi, ri, how, cut) ==
+    LET total == StartOf(fr, Len(fr) + 1)
+        closedNow == ri > Len(rs) /\ how \in {"eof", "reset"}
+    IN
     IF fi > Len(fr) THEN
+        IF cut < total THEN (IF closedNow THEN Res({}, "cut.closed") ELSE Res({"C18", "C12"}, "cut.extra.response"))
         \* all frames served: the sentinel noop must be answered, and nothing else
-        IF ri = Len(rs) /\ how = "done" /\ rs[ri].opq = Sentinel /\ rs[ri].st = 0 THEN Res({}, "served")
+        ELSE IF ri = Len(rs) /\ how = "done" /\ rs[ri].opq = Sentinel /\ rs[ri].st = 0 THEN Res({}, "served")
         ELSE IF ri <= Len(rs) /\ rs[ri].opq # Sentinel THEN Res({"C12", "C09"}, "extra.response")
         ELSE Res({"C12", "C09", "C13"}, "sentinel.unanswered")
     ELSE
@@ -54,27 +62,33 @@ Walk(fr, rs, fi, ri, how) ==
         cls == Class(f, sm.limit)
         oc  == OpClass(f.op)
         have == ri <= Len(rs) /\ Answers(rs[ri], f)
-        closedHere == ri > Len(rs) /\ how \in {"eof", "reset"}
+        closedHere == closedNow
+        hdrIn == StartOf(fr, fi) + HeaderLen <= cut
+        allIn == StartOf(fr, fi + 1) <= cut
     IN
-    IF cls = "oversize" THEN
-        IF have /\ rs[ri].st = 3 THEN Walk(fr, rs, fi + 1, ri + 1, how)
+    IF ~allIn /\ ~(hdrIn /\ cls = "oversize") THEN
+        \* the client stopped inside this frame: it is not executed, nothing more is answered (C18)
+        IF closedHere THEN Res({}, "cut.closed")
+        ELSE Res({"C18", "C09"}, "incomplete.frame.answered")
+    ELSE IF cls = "oversize" THEN
+        IF have /\ rs[ri].st = 3 THEN Walk(fr, rs, fi + 1, ri + 1, how, cut)
         ELSE Res({"C13"}, "oversize.bad")
     ELSE IF have /\ rs[ri].st = 3 THEN Res({"C13"}, "toolarge.within.limit")
     ELSE IF cls = "canonical" /\ oc = "quit" THEN
         IF f.op = 7 THEN (IF have /\ rs[ri].st = 0 /\ ri = Len(rs) /\ how \in {"eof", "reset"} THEN Res({}, "quit") ELSE Res({"C12"}, "quit.bad"))
         ELSE (IF closedHere THEN Res({}, "quitq") ELSE Res({"C12"}, "quitq.bad"))
     ELSE IF cls = "canonical" THEN
-        IF ~IsQuiet(f.op) THEN (IF have THEN Walk(fr, rs, fi + 1, ri + 1, how) ELSE Res({"C12", "C09"}, "loud.unanswered"))
+        IF ~IsQuiet(f.op) THEN (IF have THEN Walk(fr, rs, fi + 1, ri + 1, how, cut) ELSE Res({"C12", "C09", "C18"}, "loud.unanswered"))
         ELSE IF have THEN
-            (IF rs[ri].st # 0 \/ oc = "get" THEN Walk(fr, rs, fi + 1, ri + 1, how) ELSE Res({"C12", "C19"}, "quiet.success.answered"))
-        ELSE Walk(fr, rs, fi + 1, ri, how)
+            (IF rs[ri].st # 0 \/ oc = "get" THEN Walk(fr, rs, fi + 1, ri + 1, how, cut) ELSE Res({"C12", "C19"}, "quiet.success.answered"))
+        ELSE Walk(fr, rs, fi + 1, ri, how, cut)
     ELSE IF cls = "unimpl" THEN
-        IF have THEN Walk(fr, rs, fi + 1, ri + 1, how)
-        ELSE IF IsQuiet(f.op) THEN Walk(fr, rs, fi + 1, ri, how)
+        IF have THEN Walk(fr, rs, fi + 1, ri + 1, how, cut)
+        ELSE IF IsQuiet(f.op) THEN Walk(fr, rs, fi + 1, ri, how, cut)
         ELSE Res({"C12"}, "unimpl.unanswered")
     ELSE \* odd or invalid
         IF closedHere THEN Res({}, "closed." \o cls)
-        ELSE IF have /\ rs[ri].st # 0 THEN Walk(fr, rs, fi + 1, ri + 1, how)
+        ELSE IF have /\ rs[ri].st # 0 THEN Walk(fr, rs, fi + 1, ri + 1, how, cut)
         ELSE IF cls = "invalid" THEN Res({"C10", "C09"}, "invalid.not.refused")
         ELSE Res({"C09"}, "odd.not.refused")
 
@@ -82,10 +96,15 @@ Judge(e) ==
     IF \E i \in 1..Len(e.r) : ~RespOK(e.r[i]) THEN Res({"C11"}, "malformed.response")
     ELSE IF e.how = "timeout" THEN Res({"C12", "C09", "C10"}, "no.answer.in.time")
     ELSE IF e.maxcap > sm.limit + Slack THEN Res({"C10"}, "buffer.bloat")
-    ELSE Walk(sm.frames, e.r, 1, 1, e.how)
+    ELSE Walk(sm.frames, e.r, 1, 1, e.how, sm.cut)
 
 (* a server closing a socket with unread input makes the kernel send RST instead of FIN *)
 Norm(how) == IF how = "reset" THEN "eof" ELSE how
+(* conformance to the Wire model: it predicts which frames are answered, in which order *)
+NoSentinel(rs) == SelectSeq(rs, LAMBDA r : r.opq # Sentinel)
+ModelAgrees(x, e) == LET rs == NoSentinel(e.r) IN
+                     /\ Len(rs) = Len(x.resp)
+                     /\ \A i \in 1..Len(rs) : rs[i].opq = x.resp[i][1] /\ ((x.resp[i][2] = "toolarge") <=> (rs[i].st = 3))
 Summary(e) == [resp |-> e.resp, how |-> Norm(e.how), store |-> e.store]
 
 Step ==
@@ -93,12 +112,17 @@ Step ==
     /\ l' = l + 1
     /\ LET e == Rec[l] IN
        IF e.e = "stream" THEN
-            /\ sm' = [id |-> e.id, limit |-> e.limit, frames |-> e.frames, first |-> <<>>, dead |-> FALSE]
+            /\ sm' = [id |-> e.id, limit |-> e.limit, frames |-> e.frames, first |-> <<>>, dead |-> FALSE,
+                      cut |-> IF "expect" \in DOMAIN e THEN e.expect.cut ELSE e.len,
+                      expect |-> IF "expect" \in DOMAIN e THEN <<e.expect>> ELSE <<>>]
             /\ UNCHANGED <<viol, cov>>
        ELSE IF sm.dead THEN UNCHANGED <<sm, viol, cov>>
        ELSE LET j == Judge(e) IN
             IF j.tags # {} THEN
                 /\ viol' = Append(viol, [line |-> l, stream |-> sm.id, u |-> e.u, tags |-> j.tags, rule |-> j.rule])
+                /\ sm' = [sm EXCEPT !.dead = TRUE] /\ UNCHANGED cov
+            ELSE IF sm.expect # <<>> /\ ~ModelAgrees(sm.expect[1], e) THEN
+                /\ viol' = Append(viol, [line |-> l, stream |-> sm.id, u |-> e.u, tags |-> {"DRIFT"}, rule |-> "model.mismatch"])
                 /\ sm' = [sm EXCEPT !.dead = TRUE] /\ UNCHANGED cov
             ELSE IF sm.first # <<>> /\ sm.first[1] # Summary(e) THEN
                 /\ viol' = Append(viol, [line |-> l, stream |-> sm.id, u |-> e.u, tags |-> {"C09"} \cup
